@@ -974,7 +974,7 @@ fn option_pairs(rep: &mut Reporter, mixed: &[u8], clean: &[u8], stave_faulty: &[
     // is either rejected before any output (non-zero exit, nothing on stdout) or treated like the plainly named
     // file (same exit status, no panic) - nothing in between
     {
-        let names = ["cmp.JSON", "cmp.Json", "cmp.TOML", "cmp.Toml", "cmp.jsonx", "cmp.json.bak", "cmp.", "cmp", "JSON", ".json", "cmp.raw"];
+        let names = ["cmp.JSON", "cmp.Json", "cmp.TOML", "cmp.Toml", "cmp.jsonx", "cmp.json.bak", "cmp.", "cmp", "JSON", ".json", "cmp.raw", "dir.json/", "dir.toml/"];
         let mut jobs: Vec<(usize, Vec<String>, &str)> = Vec::new();
         for ii in 0..2usize {
             for mode in &modes {
@@ -994,7 +994,15 @@ fn option_pairs(rep: &mut Reporter, mixed: &[u8], clean: &[u8], stave_faulty: &[
             let r0 = Run::new(&a).cwd(&scratch.path).run();
             let Ok(txt) = std::fs::read(&refp) else { return Some(("no-reference-stats".to_string(), r0.stderr_str())) };
             let base_errors = split_cli_errors(&r0.stderr_str()).iter().any(|m| m.contains("[E"));
-            let inp = scratch.file(name, &txt);
+            // "<name>/" : a DIRECTORY of that name (an existing path with the right extension that is no file)
+            let inp = if let Some(d) = name.strip_suffix('/') {
+                let p = scratch.join(d);
+                let _ = std::fs::create_dir_all(&p);
+                let _ = std::fs::write(p.join("inner.json"), &txt);
+                p
+            } else {
+                scratch.file(name, &txt)
+            };
             let mut b = vec![input.display().to_string()];
             b.extend(mode.iter().cloned());
             b.extend(s(&["-i", &inp.display().to_string(), "-E", "7"]));
